@@ -40,7 +40,8 @@ Subset (trusted semantics = lean/SFModel/BusSem.lean, cross-checked on a grid on
   * statements: `x = e`, `x += e` / `x -= e` (ints), `if / elif / else` (short-circuit `and` / `or` / `not`; the continuation
     is duplicated in both arms), conditional expressions, `for <label> in <labels>` / `for <label>, <cell> in <pairs>` (no
     break / continue / return / else inside; the locals a loop re-binds are threaded through it; names first bound inside are
-    local to a pass), `pass`, bare `return`, `raise <Exc>(<string>)`, `del d[k]`, and the assignments `self._loaded_all = <bool>`,
+    local to a pass), `try: <one for loop> finally: <statements>` (no handlers; the finally block runs on the object and the threaded
+    locals as the loop left them, completed or interrupted, then the exception goes on), `pass`, bare `return`, `raise <Exc>(<string>)`, `del d[k]`, and the assignments `self._loaded_all = <bool>`,
     `self._series = Series(<object array>, index=<the index>, dtype=object, own_index=True)`.
   * data-only statements (abstracted; exact shapes): the docstring, `<object array>.flags.writeable = False`.
   * typing assumptions (cross-checked on the grid): `key` is an integer or a key that addresses each of its positions once, given as
@@ -102,14 +103,21 @@ HIDDEN = Val(None, 'hidden')
 
 
 class Env:
-    def __init__(self, vars=None, selfterm='self', facts=None, where='main'):
+    def __init__(self, vars=None, selfterm='self', facts=None, where='main', carried=()):
         self.vars = dict(vars or {})
         self.selfterm = selfterm
         self.facts = dict(facts or {'mp': None, 'key': None})
         self.where = where
+        self.carried = tuple(carried)     # in a loop body: the locals threaded through the loop (an exception reports them too)
 
     def copy(self):
-        return Env(self.vars, self.selfterm, self.facts, self.where)
+        return Env(self.vars, self.selfterm, self.facts, self.where, self.carried)
+
+    def payload(self):
+        """what an exception raised here leaves behind: the object and, in a loop body, the threaded locals, as mutated so far"""
+        if not self.carried:
+            return self.selfterm
+        return '(' + ', '.join([self.selfterm] + [self.vars[n].term for n in self.carried]) + ')'
 
 
 class Translator:
@@ -130,11 +138,11 @@ class Translator:
     def err(self, exc, env):
         if exc not in EXC:
             raise TranslationError(f'exception class outside subset: {exc}')
-        return f'.error (.{EXC[exc]}, {env.selfterm})'
+        return f'.error (.{EXC[exc]}, {env.payload()})'
 
     def bind(self, val, pat, env, rest):
         """`match <raising term> with | .error e_ => .error (e_, self) | .ok pat => rest`"""
-        return (f'match {val.term} with\n| .error e_ => .error (e_, {env.selfterm})\n| .ok {pat} =>\n{ind(rest)}')
+        return (f'match {val.term} with\n| .error e_ => .error (e_, {env.payload()})\n| .ok {pat} =>\n{ind(rest)}')
 
     @staticmethod
     def lift(v):
@@ -656,6 +664,19 @@ class Translator:
                              lambda ef: self.block(list(s.orelse) + rest, ef, k))
         if isinstance(s, ast.For):
             return self.for_loop(s, env, cont)
+        if isinstance(s, ast.Try):
+            # try: <one for loop> finally: <statements>   (no handlers, no else): the finally block runs on the state the loop left -
+            # completed or interrupted by an exception - and an exception goes on afterwards with the object as the block left it
+            if s.handlers or s.orelse or not s.finalbody or len(s.body) != 1 or not isinstance(s.body[0], ast.For) or env.where != 'main':
+                raise TranslationError(f'try statement outside subset (try: <for loop> finally: ...): {src_of(s)}')
+            for n in s.finalbody:
+                for x in ast.walk(n):
+                    if isinstance(x, (ast.Return, ast.For, ast.Try, ast.Raise)):
+                        raise TranslationError(f'inside finally: statement outside subset: {src_of(x)}')
+
+            def kerr(e):
+                return self.block(list(s.finalbody), e, lambda e2: f'.error (exc_, {e2.selfterm})')
+            return self.for_loop(s.body[0], env, lambda e: self.block(list(s.finalbody) + rest, e, k), kerr)
         if isinstance(s, ast.Return):
             if s.value is not None and not (isinstance(s.value, ast.Constant) and s.value.value is None):
                 raise TranslationError(f'return of a value: {src_of(s)}')
@@ -857,7 +878,7 @@ class Translator:
         raise TranslationError(f'statement outside subset: {src_of(s)}')
 
     # ------------------------------------------------------------------ loops
-    def for_loop(self, s, env, cont):
+    def for_loop(self, s, env, cont, kerr=None):
         if s.orelse:
             raise TranslationError('for ... else (outside subset)')
         if env.where != 'main':
@@ -915,7 +936,7 @@ class Translator:
         if exp is None or exp != (it.ty, carried):
             raise TranslationError(f'loop {loop_id} ({tag}) iterates {it.ty} and threads {carried}; expected {exp} (the bridge lemmas are stated for these)')
         # ---- body
-        benv = Env(where='body', facts={'mp': env.facts['mp'], 'key': 'hidden'})
+        benv = Env(where='body', facts={'mp': env.facts['mp'], 'key': 'hidden'}, carried=carried)
         for name, v in env.vars.items():
             if name in carried:
                 benv.vars[name] = Val(name, v.ty, owned=v.owned)
@@ -940,7 +961,7 @@ class Translator:
         params = ''.join(f' ({n} : {t})' for n, t in zip(carried, cty)) + ''.join(f' ({n} : {LEAN_TY[t]})' for n, t in targets)
         body_def = (f'/-- one pass of loop {loop_id} (`for {src_of(s.target)} in {src_of(s.iter, 60)}`), max_persist {"is None" if tag == "mpNone" else "is an int"} -/\n'
                     f'def {bname} {{φ : Type}} (env : Env φ){mp_param} (self : Obj φ){params} :\n'
-                    f'    Except (Err × Obj φ) ({ret_ty}) :=\n{ind(body)}\n')
+                    f'    Except (Err × ({ret_ty})) ({ret_ty}) :=\n{ind(body)}\n')
         item_ty = 'Nat × Option φ' if it.ty == 'pairs' else 'Nat'
         item_args = ' item_.1 item_.2' if it.ty == 'pairs' else ' item_'
         cpat = ''.join(f', {n}' for n in carried)
@@ -950,7 +971,7 @@ class Translator:
         okpat = f"(self'{cpat2})" if carried else "self'"
         loop_def = (f'/-- loop {loop_id}: the passes in the order of the items; an exception ends it with the object as mutated so far -/\n'
                     f'def {lname} {{φ : Type}} (env : Env φ){mp_param} :\n'
-                    f'    Obj φ → {"".join(t + " → " for t in cty)}List ({item_ty}) → Except (Err × Obj φ) ({ret_ty})\n'
+                    f'    Obj φ → {"".join(t + " → " for t in cty)}List ({item_ty}) → Except (Err × ({ret_ty})) ({ret_ty})\n'
                     f'  | self{cpat}, [] => .ok {"(self" + cpat + ")" if carried else "self"}\n'
                     f'  | self{cpat}, item_ :: rest_ =>\n'
                     f'    match {bname} env{mp_arg} self{cargs}{item_args} with\n'
@@ -979,7 +1000,22 @@ class Translator:
                 e2.vars[n] = HIDDEN
         call = f'{lname} env{mp_arg} {env.selfterm}' + ''.join(f' {env.vars[n].term}' for n in carried) + f' {it.term}'
         pat = '(' + ', '.join(pats) + ')' if carried else pats[0]
-        return f'match {call} with\n| .error e_ => .error e_\n| .ok {pat} =>\n{ind(cont(e2))}'
+        # an exception: the object and the threaded locals as the interrupted pass left them
+        e3 = env.copy()
+        e3.selfterm = self.fresh('self')
+        epats = [e3.selfterm]
+        for n in carried:
+            x = self.fresh(n)
+            e3.vars[n] = Val(x, env.vars[n].ty, owned=env.vars[n].owned)
+            epats.append(x)
+        for n in tnames:
+            e3.vars[n] = HIDDEN
+        for n in assigned:
+            if n not in carried and n not in env.vars:
+                e3.vars[n] = HIDDEN
+        epat = '(' + ', '.join(epats) + ')' if carried else epats[0]
+        err_arm = kerr(e3) if kerr is not None else f'.error (exc_, {e3.selfterm})'
+        return f'match {call} with\n| .error (exc_, {epat}) =>\n{ind(err_arm)}\n| .ok {pat} =>\n{ind(cont(e2))}'
 
     def assigned_live(self, loop, name, env):
         """is `name` assigned somewhere in the loop body outside statements guarded by a test that is constant-false in this arm"""
@@ -1044,7 +1080,7 @@ def check_signature(fn):
     if a.posonlyargs or a.kwonlyargs or a.vararg or a.kwarg or a.defaults or fn.decorator_list or [x.arg for x in a.args] != ['self', 'key']:
         raise TranslationError(f'signature outside subset: ({", ".join(x.arg for x in a.args)})')
     for node in ast.walk(fn):
-        if isinstance(node, (ast.AsyncFunctionDef, ast.ClassDef, ast.Lambda, ast.While, ast.With, ast.Try, ast.Global, ast.Nonlocal, ast.Yield,
+        if isinstance(node, (ast.AsyncFunctionDef, ast.ClassDef, ast.Lambda, ast.While, ast.With, ast.Global, ast.Nonlocal, ast.Yield,
                              ast.YieldFrom, ast.Await, ast.NamedExpr, ast.ListComp, ast.SetComp, ast.DictComp, ast.Import, ast.ImportFrom,
                              ast.Assert)) or (isinstance(node, ast.FunctionDef) and node is not fn):
             raise TranslationError(f'statement outside subset: {src_of(node)}')
@@ -1085,11 +1121,12 @@ def stubs(ex):
         items = ' (label : Nat) (frame : Option φ)' if kind == 'pairs' else ' (label : Nat)'
         ret = ' × '.join(['Obj φ'] + cty)
         item_ty = 'Nat × Option φ' if kind == 'pairs' else 'Nat'
+        pay = '(' + ', '.join(['self'] + carried) + ')' if carried else 'self'
         out.append(f'def {FN}_loop{loop_id}_body_{tag} {{φ : Type}} (env : Env φ){mp} (self : Obj φ){params}{items} :\n'
-                   f'    Except (Err × Obj φ) ({ret}) := .error (.other, self)')
+                   f'    Except (Err × ({ret})) ({ret}) := .error (.other, {pay})')
         out.append(f'def {FN}_loop{loop_id}_{tag} {{φ : Type}} (env : Env φ){mp} :\n'
-                   f'    Obj φ → {"".join(t + " → " for t in cty)}List ({item_ty}) → Except (Err × Obj φ) ({ret}) :=\n'
-                   f'  fun self {" ".join("_" for _ in cty)} _ => .error (.other, self)')
+                   f'    Obj φ → {"".join(t + " → " for t in cty)}List ({item_ty}) → Except (Err × ({ret})) ({ret}) :=\n'
+                   f'  fun self {" ".join(carried)} _ => .error (.other, {pay})')
     out.append(f'def {FN} {{φ : Type}} (env : Env φ) (self : Obj φ) (key : IKey) : Except (Err × Obj φ) (Obj φ) := .error (.other, self)\n')
     return '\n'.join(out)
 
